@@ -12,7 +12,7 @@ from . import c11_routing as c11
 
 ID = 'C08'
 LEVEL = 'exploration'
-RULE = ('One responder with 1-3 settled services (sharing or not sharing a host name), optionally watched by a peer browser on a '
+RULE = ('One responder with 1-3 settled services (sharing or not sharing a host name; in a third of the cases the registry reached its shape through async_update_service calls that moved a service between host names or changed port/text), optionally watched by a peer browser on a '
         'second simulated host, receives queries (single/multi-question, QM/QU, port 5353 or legacy, TC, optionally preceded by a '
         'sighting inside the last second so the answer lands in the 1 s protection queue) at offsets from the grid {-1300,-1200,'
         '-1001,-600,-500,-499,-130,-120,-21,-20,-1,0,+1,+100,+249,+251} ms around a withdrawal (async_unregister_service of one or '
@@ -39,6 +39,22 @@ def scenario(draw) -> Dict[str, Any]:
             # shared host - the same host however its name is capitalised
             s_['server'], s_['addrs'] = draw(st.sampled_from(['host-a.local.', 'host-a.local.', 'Host-A.local.', 'HOST-a.Local.'])), ['10.0.0.1']
     n = len(services)
+    # a third of the registries reach their final shape through updates: a service moves to another host name (leaving, or
+    # joining, a host name that siblings use), or changes port / text
+    pre_updates = []
+    if draw(st.integers(0, 2)) == 0:
+        for _ in range(draw(st.integers(1, 2))):
+            k = draw(st.integers(0, n - 1))
+            what = draw(st.sampled_from(['move-away', 'move-away', 'move-to-shared', 'port', 'text']))
+            if what == 'move-away':
+                new = {'server': 'host-moved.local.', 'addrs': ['10.0.0.7']}
+            elif what == 'move-to-shared':
+                new = {'server': 'host-a.local.', 'addrs': ['10.0.0.1']}
+            elif what == 'port':
+                new = {'port': 9000 + k}
+            else:
+                new = {'props': '0578793d7a7a'}
+            pre_updates.append({'svc': k, 'set': new})
     items: List[Tuple[int, int, Dict[str, Any]]] = []
     how = draw(st.sampled_from(['unregister', 'unregister', 'unregister2', 'close']))
     if how == 'close':
@@ -88,7 +104,7 @@ def scenario(draw) -> Dict[str, Any]:
     jitter = {'seed': draw(st.integers(0, 10**6))} if draw(st.integers(0, 2)) else \
         {'explicit': draw(st.lists(st.sampled_from([0, 100, 50]), min_size=1, max_size=4))}
     return {'jitter': jitter, 'socks': 'v4', 'services': services, 'settle_ms': 1500, 'events': events, 'tail_ms': 5000,
-            'peer': draw(st.sampled_from([False, True]))}
+            'pre_updates': pre_updates, 'peer': draw(st.sampled_from([False, True]))}
 
 
 def strategy(tier: str):
@@ -113,7 +129,7 @@ def check(case: Dict[str, Any]) -> Dict[str, Any]:
                         tag='loop-exception')
     t0 = run.t_settled_ms
     rel = lambda ms: round(ms - t0, 3)
-    services = [rp.Svc(d) for d in case['services']]
+    services = [rp.Svc(d) for d in run.sc['services']]       # after the updates, if any
     live = [True] * len(services)
     withdrawals: List[Dict[str, Any]] = []
     for ev in run.api_events:
@@ -199,5 +215,7 @@ def check(case: Dict[str, Any]) -> Dict[str, Any]:
         classes.append('answer-queued-at-withdrawal')
     if any(q['tc'] for q in run.queries):
         classes.append('tc')
+    if case.get('pre_updates'):
+        classes.append('registry-reached-through-updates')
     return {'nontrivial': queued_at_withdrawal, 'classes': classes, 'max': {'queries': len(run.queries)},
             'sample': {'case': case}}
